@@ -122,10 +122,16 @@ def rule_merge(repo, rule):
         a = [norm(x) for x in c.args]
         loops = [p for p in parents(c) if isinstance(p, ast.For)]
         nm = norm(loops[0].target) if loops else None
+        over = norm(loops[0].iter) if loops else None
+        if loops and isinstance(loops[0].target, ast.Tuple) and len(loops[0].target.elts) == 2 and over.endswith(".items()") \
+                and all(isinstance(e, ast.Name) for e in loops[0].target.elts):
+            # for (k, v) in X.items():  v is X[k]
+            nm, vname = (e.id for e in loops[0].target.elts)
+            over = over[:-8]
+            a = ["%s[%s]" % (over, nm) if x == vname else x for x in a]
         new_ok = a[1] == "self.ctx.vals[%s]" % nm
         old_ok = a[2] in ("self.bak[%s]" % nm, "self.nodefvals[%s]" % nm)
         cond_ok = a[0] == "self.cond"
-        over = norm(loops[0].iter) if loops else None
         if over:
             import re as _re
             mm = _re.match(r"^(?:list|tuple|sorted)\((.*)\)$", over)
